@@ -6,6 +6,7 @@ import (
 	"fmt"
 	"go/types"
 	"math/big"
+	"regexp"
 	"sort"
 	"strings"
 
@@ -40,6 +41,9 @@ type PtrV struct {
 	Idx   *Term     // slice element index (absolute, BV64) when SliceElem; byte index when Inner != nil
 	SlEl  bool
 	Inner *PtrV // pointer into a [n]byte location
+	// LazyStruct: produced by a specification's field selection of a struct-typed field; it stands
+	// for the struct VALUE at the time of evaluation, not for a pointer
+	LazyStruct bool
 }
 
 type FuncV struct {
@@ -80,6 +84,7 @@ type State struct {
 	callSeq map[string]int
 	fwd     map[string]*fwdCache
 	refClass map[string]int8 // syntactic classification of reference terms on this path (fresh / old)
+	stack    map[string]bool // references into non-escaping locals
 }
 
 func NewState() *State {
@@ -106,6 +111,12 @@ func (s *State) Clone() *State {
 		n.refClass = make(map[string]int8, len(s.refClass))
 		for k, v := range s.refClass {
 			n.refClass[k] = v
+		}
+	}
+	if s.stack != nil {
+		n.stack = make(map[string]bool, len(s.stack))
+		for k, v := range s.stack {
+			n.stack[k] = v
 		}
 	}
 	if s.fwd != nil {
@@ -200,8 +211,24 @@ func byteArrayLen(t types.Type) int {
 	return int(a.Len())
 }
 
+var anyWord = regexp.MustCompile(`\bany\b`)
+var byteWord = regexp.MustCompile(`(^|[^./\w])byte\b`)
+var runeWord = regexp.MustCompile(`(^|[^./\w])rune\b`)
+
+// typeKey is the canonical name of a type (heap arrays and type tags are keyed by it). The alias
+// `any` is normalised to interface{} so that both spellings denote the same memory.
 func typeKey(t types.Type) string {
-	return types.TypeString(t, nil)
+	s := types.TypeString(t, nil)
+	if strings.Contains(s, "any") {
+		s = anyWord.ReplaceAllString(s, "interface{}")
+	}
+	if strings.Contains(s, "byte") {
+		s = byteWord.ReplaceAllString(s, "${1}uint8")
+	}
+	if strings.Contains(s, "rune") {
+		s = runeWord.ReplaceAllString(s, "${1}int32")
+	}
+	return s
 }
 
 type Unsupported struct{ Msg string }
@@ -589,6 +616,7 @@ func (x *Exec) heapArr(st *State, name string, idx, elt Sort) *Term {
 func (x *Exec) heapHavoc(st *State, name string) {
 	if t, ok := st.heap[name]; ok {
 		st.heap[name] = x.freshSym("hv."+name, t.Sort)
+		x.havocKeepStack(st, name, t, st.heap[name])
 	}
 }
 
@@ -615,7 +643,15 @@ func (x *Exec) loadAt(st *State, prefix string, idx *Term, t types.Type) Value {
 	var ts []*Term
 	for _, c := range cs {
 		arr := x.heapArr(st, prefix+c.suffix, idx.Sort, c.sort)
-		ts = append(ts, x.heapSelect(st, prefix+c.suffix, arr, idx))
+		t := x.heapSelect(st, prefix+c.suffix, arr, idx)
+		if c.sort.K == KInt && (c.suffix == "" || c.suffix == ".base" || c.suffix == ".ref") && strings.HasPrefix(t.S, "(select |") {
+			// a reference read straight from the entry heap (array name@0, no store in between):
+			// memory at entry only refers to memory that exists at entry
+			if end := strings.Index(t.S[9:], "|"); end > 0 && strings.HasSuffix(t.S[9:9+end], "@0") {
+				x.assumeOld(st, t)
+			}
+		}
+		ts = append(ts, t)
 	}
 	v, _ := x.unflatten(t, ts)
 	// every value stored in memory satisfies its representation invariant (len <= cap, ...):
@@ -643,6 +679,9 @@ func (x *Exec) nameTerm(st *State, t *Term, hint string) *Term {
 	st.Assume(&Term{S: "(= " + c.S + " " + t.S + ")", Sort: SBool, Def: c.S})
 	if cl, ok := st.refClass[t.S]; ok {
 		st.setClass(c, cl)
+	}
+	if st.stack[t.S] {
+		st.markStack(c)
 	}
 	return c
 }
